@@ -42,6 +42,11 @@ CHECKS = {
             "For ALL real/complex operands, ALL non-negative tolerances and ALL dimension vectors z3 decides on every path of the real oracle: pass => equivalent dimensions and both parts within the larger tolerance; within the stated tolerance => pass; symmetry without absolute tolerance; bare numbers need an explicit dimension; vectors component-wise with equal lengths (0..3).",
             "Trusted: z3, the ApproxScalar model (checked against the real pytest.approx on solver-chosen points each run), vlib/lift.py stubs. Reals stand in for doubles: a relative margin of 1e-9 around the tolerance boundary is outside the claim; NaN/inf operands are outside.",
             "3.8"),
+    "C07": ("L", "other",
+            "lifted native execution of the real conversion functions over symbolic values, unit scales and dimension vectors (z3 Reals); per-path assertions; finite catalogue of dimensions for the SI-unit map; z3 QF_FP for the Celsius round trip on doubles (thorough)",
+            "convert_to: for ALL values, unit scales and real dimension vectors the result n satisfies n*unit == value exactly when the dimensions are equivalent; composition and identity for all values; convert_to_si and evaluate_expression for all values over the finite set of catalogue dimensions / bounded trees; prefix table and Celsius helpers exactly (reals) and bit-precisely (doubles, |x| <= 1e9, thorough tier).",
+            "Trusted: z3 (QF_NRA, QF_FP), sympy dimsys_SI, vlib/lift.py stubs. Float rounding is modelled only in the Celsius kernel.",
+            "3.7"),
 }
 
 NOT_APPLICABLE = {
